@@ -199,3 +199,106 @@ Definition saml_vocabulary : list (string * string) := [
   ("t_MethodSHA1", "http://www.w3.org/2000/09/xmldsig#sha1");
   ("t_MethodSHA256", "http://www.w3.org/2000/09/xmldsig#sha256");
   ("t_MethodSHA512", "http://www.w3.org/2000/09/xmldsig#sha512")].
+
+(* ---- SAML 2.0 metadata (saml-metadata-2.0-os; sstc-saml-metadata-algsupport for Extensions) as the MARSHALLED Go types
+   must spell it: for each struct the XML name and name space it is written under (md: urn:oasis:names:tc:SAML:2.0:metadata,
+   ds: http://www.w3.org/2000/09/xmldsig#; a struct without XMLName is written under the name of the field that holds it,
+   in the name space in scope), every attribute (validUntil, entityID, protocolSupportEnumeration, use, Binding, Location,
+   ResponseLocation, index, Algorithm, ... with the capitalisation of the schema), every child element in the order of the
+   schema's sequence as far as the library emits it, character data; and which of them are optional on output (omitempty:
+   ResponseLocation, the three role / Extensions children of EntityDescriptor, DigestMethod, Algorithm of the method
+   elements, MinKeySize / MaxKeySize).  Written by hand; P_Marshal.v proves the schema extracted from /repo on this run
+   equal to it. ---- *)
+Definition saml_metadata_schema : list (string * list field) := [
+  ("Attribute", [
+    {| f_go := "XMLName"; f_kind := KXMLName "urn:oasis:names:tc:SAML:2.0:assertion" "Attribute"; f_type := TName |};
+    {| f_go := "FriendlyName"; f_kind := KAttr "" "FriendlyName"; f_type := TStr |};
+    {| f_go := "Name"; f_kind := KAttr "" "Name"; f_type := TStr |};
+    {| f_go := "NameFormat"; f_kind := KAttr "" "NameFormat"; f_type := TStr |};
+    {| f_go := "Values"; f_kind := KElem [] "" "AttributeValue"; f_type := (TSlice (TStruct "AttributeValue")) |}]);
+  ("AttributeValue", [
+    {| f_go := "XMLName"; f_kind := KXMLName "urn:oasis:names:tc:SAML:2.0:assertion" "AttributeValue"; f_type := TName |};
+    {| f_go := "Type"; f_kind := KAttr "" "xsi:type"; f_type := TStr |};
+    {| f_go := "Value"; f_kind := KCharData; f_type := TStr |}]);
+  ("DigestMethod", [
+    {| f_go := "Algorithm"; f_kind := KAttr "" "Algorithm"; f_type := TStr |}]);
+  ("EncryptionMethod", [
+    {| f_go := "Algorithm"; f_kind := KAttr "" "Algorithm"; f_type := TStr |};
+    {| f_go := "DigestMethod"; f_kind := KElem [] "" "DigestMethod"; f_type := (TPtr (TStruct "DigestMethod")) |}]);
+  ("Endpoint", [
+    {| f_go := "Binding"; f_kind := KAttr "" "Binding"; f_type := TStr |};
+    {| f_go := "Location"; f_kind := KAttr "" "Location"; f_type := TStr |};
+    {| f_go := "ResponseLocation"; f_kind := KAttr "" "ResponseLocation"; f_type := TStr |}]);
+  ("EntityDescriptor", [
+    {| f_go := "XMLName"; f_kind := KXMLName "urn:oasis:names:tc:SAML:2.0:metadata" "EntityDescriptor"; f_type := TName |};
+    {| f_go := "ValidUntil"; f_kind := KAttr "" "validUntil"; f_type := TTime |};
+    {| f_go := "EntityID"; f_kind := KAttr "" "entityID"; f_type := TStr |};
+    {| f_go := "SPSSODescriptor"; f_kind := KElem [] "" "SPSSODescriptor"; f_type := (TPtr (TStruct "SPSSODescriptor")) |};
+    {| f_go := "IDPSSODescriptor"; f_kind := KElem [] "" "IDPSSODescriptor"; f_type := (TPtr (TStruct "IDPSSODescriptor")) |};
+    {| f_go := "Extensions"; f_kind := KElem [] "" "Extensions"; f_type := (TPtr (TStruct "Extensions")) |}]);
+  ("Extensions", [
+    {| f_go := "DigestMethod"; f_kind := KElem [] "" "DigestMethod"; f_type := (TPtr (TStruct "DigestMethod")) |};
+    {| f_go := "SigningMethod"; f_kind := KElem [] "" "SigningMethod"; f_type := (TPtr (TStruct "SigningMethod")) |}]);
+  ("IDPSSODescriptor", [
+    {| f_go := "XMLName"; f_kind := KXMLName "urn:oasis:names:tc:SAML:2.0:metadata" "IDPSSODescriptor"; f_type := TName |};
+    {| f_go := "WantAuthnRequestsSigned"; f_kind := KAttr "" "WantAuthnRequestsSigned"; f_type := TBool |};
+    {| f_go := "KeyDescriptors"; f_kind := KElem [] "" "KeyDescriptor"; f_type := (TSlice (TStruct "KeyDescriptor")) |};
+    {| f_go := "NameIDFormats"; f_kind := KElem [] "" "NameIDFormat"; f_type := (TSlice (TStruct "NameIDFormat")) |};
+    {| f_go := "SingleSignOnServices"; f_kind := KElem [] "" "SingleSignOnService"; f_type := (TSlice (TStruct "SingleSignOnService")) |};
+    {| f_go := "SingleLogoutServices"; f_kind := KElem [] "" "SingleLogoutService"; f_type := (TSlice (TStruct "SingleLogoutService")) |};
+    {| f_go := "Attributes"; f_kind := KElem [] "" "Attribute"; f_type := (TSlice (TStruct "Attribute")) |};
+    {| f_go := "Extensions"; f_kind := KElem [] "" "Extensions"; f_type := (TPtr (TStruct "Extensions")) |}]);
+  ("IndexedEndpoint", [
+    {| f_go := "Binding"; f_kind := KAttr "" "Binding"; f_type := TStr |};
+    {| f_go := "Location"; f_kind := KAttr "" "Location"; f_type := TStr |};
+    {| f_go := "Index"; f_kind := KAttr "" "index"; f_type := TInt |}]);
+  ("KeyDescriptor", [
+    {| f_go := "XMLName"; f_kind := KXMLName "urn:oasis:names:tc:SAML:2.0:metadata" "KeyDescriptor"; f_type := TName |};
+    {| f_go := "Use"; f_kind := KAttr "" "use"; f_type := TStr |};
+    {| f_go := "KeyInfo"; f_kind := KElem [] "" "KeyInfo"; f_type := (TStruct "KeyInfo") |};
+    {| f_go := "EncryptionMethods"; f_kind := KElem [] "" "EncryptionMethod"; f_type := (TSlice (TStruct "EncryptionMethod")) |}]);
+  ("KeyInfo", [
+    {| f_go := "XMLName"; f_kind := KXMLName "http://www.w3.org/2000/09/xmldsig#" "KeyInfo"; f_type := TName |};
+    {| f_go := "X509Data"; f_kind := KElem [] "" "X509Data"; f_type := (TStruct "X509Data") |}]);
+  ("NameIDFormat", [
+    {| f_go := "XMLName"; f_kind := KXMLName "urn:oasis:names:tc:SAML:2.0:metadata" "NameIDFormat"; f_type := TName |};
+    {| f_go := "Value"; f_kind := KCharData; f_type := TStr |}]);
+  ("SPSSODescriptor", [
+    {| f_go := "XMLName"; f_kind := KXMLName "urn:oasis:names:tc:SAML:2.0:metadata" "SPSSODescriptor"; f_type := TName |};
+    {| f_go := "AuthnRequestsSigned"; f_kind := KAttr "" "AuthnRequestsSigned"; f_type := TBool |};
+    {| f_go := "WantAssertionsSigned"; f_kind := KAttr "" "WantAssertionsSigned"; f_type := TBool |};
+    {| f_go := "ProtocolSupportEnumeration"; f_kind := KAttr "" "protocolSupportEnumeration"; f_type := TStr |};
+    {| f_go := "KeyDescriptors"; f_kind := KElem [] "" "KeyDescriptor"; f_type := (TSlice (TStruct "KeyDescriptor")) |};
+    {| f_go := "SingleLogoutServices"; f_kind := KElem [] "" "SingleLogoutService"; f_type := (TSlice (TStruct "Endpoint")) |};
+    {| f_go := "NameIDFormats"; f_kind := KElem [] "" "NameIDFormat"; f_type := (TSlice TStr) |};
+    {| f_go := "AssertionConsumerServices"; f_kind := KElem [] "" "AssertionConsumerService"; f_type := (TSlice (TStruct "IndexedEndpoint")) |};
+    {| f_go := "Extensions"; f_kind := KElem [] "" "Extensions"; f_type := (TPtr (TStruct "Extensions")) |}]);
+  ("SigningMethod", [
+    {| f_go := "Algorithm"; f_kind := KAttr "" "Algorithm"; f_type := TStr |};
+    {| f_go := "MinKeySize"; f_kind := KAttr "" "MinKeySize"; f_type := TStr |};
+    {| f_go := "MaxKeySize"; f_kind := KAttr "" "MaxKeySize"; f_type := TStr |}]);
+  ("SingleLogoutService", [
+    {| f_go := "XMLName"; f_kind := KXMLName "urn:oasis:names:tc:SAML:2.0:metadata" "SingleLogoutService"; f_type := TName |};
+    {| f_go := "Binding"; f_kind := KAttr "" "Binding"; f_type := TStr |};
+    {| f_go := "Location"; f_kind := KAttr "" "Location"; f_type := TStr |}]);
+  ("SingleSignOnService", [
+    {| f_go := "XMLName"; f_kind := KXMLName "urn:oasis:names:tc:SAML:2.0:metadata" "SingleSignOnService"; f_type := TName |};
+    {| f_go := "Binding"; f_kind := KAttr "" "Binding"; f_type := TStr |};
+    {| f_go := "Location"; f_kind := KAttr "" "Location"; f_type := TStr |}]);
+  ("X509Certificate", [
+    {| f_go := "XMLName"; f_kind := KXMLName "http://www.w3.org/2000/09/xmldsig#" "X509Certificate"; f_type := TName |};
+    {| f_go := "Data"; f_kind := KCharData; f_type := TStr |}]);
+  ("X509Data", [
+    {| f_go := "XMLName"; f_kind := KXMLName "http://www.w3.org/2000/09/xmldsig#" "X509Data"; f_type := TName |};
+    {| f_go := "X509Certificates"; f_kind := KElem [] "" "X509Certificate"; f_type := (TSlice (TStruct "X509Certificate")) |}])
+].
+Definition saml_metadata_omitempty : list (string * list string) := [
+  ("DigestMethod", ["Algorithm"]);
+  ("EncryptionMethod", ["Algorithm"; "DigestMethod"]);
+  ("Endpoint", ["ResponseLocation"]);
+  ("EntityDescriptor", ["SPSSODescriptor"; "IDPSSODescriptor"; "Extensions"]);
+  ("Extensions", ["DigestMethod"; "SigningMethod"]);
+  ("IDPSSODescriptor", ["Extensions"]);
+  ("SPSSODescriptor", ["Extensions"]);
+  ("SigningMethod", ["MinKeySize"; "MaxKeySize"])
+].
